@@ -184,7 +184,9 @@ MultOf(i, co, r) ==
 IsBase(x) == /\ x.dup = NoDup /\ x.ord = <<>>
              /\ x.ins \in InsSets /\ x.coll \in CollSets /\ x.req \in ReqSets
              /\ <<x.vw, x.bw>> \in (IF x.p2 THEN FlagWits ELSE AllWits)
-MultCases == {x \in UNION {MultOf(o[1], o[2], o[3]) : o \in MultObl} : ~IsBase(x)}
+\* the cases of one obligation (the slice is the union over MultObl; TLC is
+\* never asked for the union as one set)
+MultCasesOf(o) == {x \in MultOf(o[1], o[2], o[3]) : ~IsBase(x)}
 
 \* how often things are listed
 Times(D, x)  == IF \E d \in D : d[1] = x THEN (CHOOSE d \in D : d[1] = x)[2] ELSE 1
@@ -203,8 +205,8 @@ AcceptCountingWitnesses(x) ==
 AcceptPerListedSigner(x) ==
     /\ AllSigsValid(x) /\ (\A l \in x.ins : InputOk(x, l)) /\ (\A m \in x.coll : CollOk(x, m))
     /\ Listed(x, x.req) >= ReqListed(x)
-ASSUME \E x \in MultCases : ~Accept(x) /\ AcceptCountingWitnesses(x)
-ASSUME \E x \in MultCases : Accept(x) /\ ~AcceptPerListedSigner(x)
+ASSUME \E o \in MultObl : \E x \in MultCasesOf(o) : ~Accept(x) /\ AcceptCountingWitnesses(x)
+ASSUME \E o \in MultObl : \E x \in MultCasesOf(o) : Accept(x) /\ ~AcceptPerListedSigner(x)
 ASSUME MaxMult >= 2 /\ MultReq >= 2 /\ MultTotal >= 3
 
 \* sl: the slice an obligation belongs to (an obligation of the multiplicity
@@ -221,7 +223,7 @@ Next == /\ ~done
         /\ done' = TRUE
         /\ UNCHANGED sl
         /\ IF sl = "mult"
-           THEN \E x \in MultOf(c.ins, c.coll, c.req) : ~IsBase(x) /\ c' = x
+           THEN \E x \in MultCasesOf(<<c.ins, c.coll, c.req>>) : c' = x
            ELSE IF sl = "base"
            THEN \E w \in (IF c.p2 THEN FlagWits ELSE AllWits) : c' = [c EXCEPT !.vw = w[1], !.bw = w[2]]
            ELSE \E v \in SUBSET OwnVW(c.ins), b \in SUBSET OwnBW(c.ins) : c' = [c EXCEPT !.vw = v, !.bw = b]
@@ -319,10 +321,10 @@ MultiplicityIrrelevant == done =>
 
 BaseObl     == Cardinality(InsSets) * Cardinality(CollSets) * Cardinality(ReqSets)
 Obligations == BaseObl * 2 + Cardinality(Orders) * Cardinality(FlagsOfSlices) + Cardinality(MultObl)
+NumMult     == MapThenSumSet(LAMBDA o : Cardinality(MultCasesOf(o)), MultObl)
 NumCases    == BaseObl * Cardinality(AllWits) + BaseObl * Cardinality(FlagWits) + Cardinality(OrderedCases)
-               + Cardinality(MultCases)
+               + NumMult
 NumFlagged  == BaseObl * Cardinality(FlagWits) + Cardinality({x \in OrderedCases : x.p2})
-NumMult     == Cardinality(MultCases)
 \* POSTCONDITION: every combination was visited (and therefore emitted) once
 AllCasesVisited == TLCGet("distinct") = NumCases + Obligations
 
